@@ -210,7 +210,11 @@ pub fn judge_stream(bytes: &[u8], stmts: &[(u32, usize)], chunk: usize) -> (Opti
             // the first time the server asks for input beyond what the client sent is where a real
             // client would be waiting: whatever the server has to say about the bytes it has must
             // be in the client's hands by then (nothing it writes later can be caused by the client)
-            let waiting = o.ops.iter().find(|op| op.kind == OpKind::Read && !op.failed && op.n == 0 && op.at >= bytes.len());
+            // (only for streams that are whole packets with a complete last message: about a stream
+            // that stops in mid-packet a server may have something to say once it sees the end)
+            let (cphys, cused) = split_packets(bytes);
+            let whole = cused == bytes.len() && cphys.last().map(|p| p.len != MAX_PAYLOAD).unwrap_or(true);
+            let waiting = o.ops.iter().find(|op| whole && op.kind == OpKind::Read && !op.failed && op.n == 0 && op.at >= bytes.len());
             if used != o.out.len() {
                 Some(Verdict { key: "c20-garbage-output".into(), msg: format!("server output is not a sequence of well-formed packets ({} stray bytes) for client bytes {}", o.out.len() - used, hex(bytes)) })
             } else if let Some(op) = waiting.filter(|op| op.flushed != o.out.len()) {
@@ -359,7 +363,7 @@ impl Prop for C20 {
         "C20"
     }
     fn rule(&self) -> String {
-        "cases = (1) enumerated, exhaustive: every packet payload of length 0-4 over a 12-symbol alphabet (all command bytes, 0x00, 0xff, an unknown command) after a valid handshake and as the handshake response; every raw (unframed) stream of length <= 5 over a 6-symbol alphabet after the handshake and from the start; every COM_STMT_EXECUTE parameter-block body of length 0-4 over an 8-symbol alphabet for statements declaring 0, 1, 2 and 9 parameters; every COM_QUERY consisting of a built-in prefix (`USE `, `use `, `SELECT @@`, `USE`) and a tail of length 0-4 over {back-quote, ';', blank, 'a', tab, '@', a broken UTF-8 lead byte}; (2) generated: grammar-aware mutations of valid conversations (truncate / extend / delete / insert at any offset of any command or of the handshake response, set bytes to boundary values, flip bits, replace the tail of a payload by 1-1000 bytes of valid unterminated UTF-8 text whose multi-byte characters straddle every offset, replace the command byte, declared-vs-sent parameter count mismatches, unknown type codes, executes without bound types, every request sequence id 0-255, header length fields larger or smaller than the payload) and random byte streams, under 1-byte to whole-stream read chunkings; (3) enumerated multi-fragment (>= 2^24-1 byte) requests with in-order, out-of-order, repeated and wrapping fragment sequence ids, each under plain 4 MiB reads and under reads that end 1-3 bytes into every fragment header. Oracle: run_on returns Ok or Err, never panics, never keeps reading after end of stream (read budget), everything it wrote is a sequence of well-formed packets, and all of it was flushed by the first time the server asked for more input than the client had sent (a waiting client must have every reply in hand). One generated stream in ten ends exactly at 4096, 8192, 16384 or 32768 bytes. Known panic sites are matched by (file, source line text, message) signature and reported as KNOWN-FINDING; any other signature is a violation. Non-trivial = the stream differs from every valid conversation (all enumerated and mutated cases) and is at least 1 byte long.".into()
+        "cases = (1) enumerated, exhaustive: every packet payload of length 0-4 over a 12-symbol alphabet (all command bytes, 0x00, 0xff, an unknown command) after a valid handshake and as the handshake response; every raw (unframed) stream of length <= 5 over a 6-symbol alphabet after the handshake and from the start; every COM_STMT_EXECUTE parameter-block body of length 0-4 over an 8-symbol alphabet for statements declaring 0, 1, 2 and 9 parameters; every COM_QUERY consisting of a built-in prefix (`USE `, `use `, `SELECT @@`, `USE`) and a tail of length 0-4 over {back-quote, ';', blank, 'a', tab, '@', a broken UTF-8 lead byte}; (2) generated: grammar-aware mutations of valid conversations (truncate / extend / delete / insert at any offset of any command or of the handshake response, set bytes to boundary values, flip bits, replace the tail of a payload by 1-1000 bytes of valid unterminated UTF-8 text whose multi-byte characters straddle every offset, replace the command byte, declared-vs-sent parameter count mismatches, unknown type codes, executes without bound types, every request sequence id 0-255, header length fields larger or smaller than the payload) and random byte streams, under 1-byte to whole-stream read chunkings; (3) enumerated multi-fragment (>= 2^24-1 byte) requests with in-order, out-of-order, repeated and wrapping fragment sequence ids, each under plain 4 MiB reads and under reads that end 1-3 bytes into every fragment header. Oracle: run_on returns Ok or Err, never panics, never keeps reading after end of stream (read budget), everything it wrote is a sequence of well-formed packets, and - for streams made of whole packets - all of it was flushed by the first time the server asked for more input than the client had sent (a waiting client must have every reply in hand). One generated stream in ten ends exactly at 4096, 8192, 16384 or 32768 bytes. Known panic sites are matched by (file, source line text, message) signature and reported as KNOWN-FINDING; any other signature is a violation. Non-trivial = the stream differs from every valid conversation (all enumerated and mutated cases) and is at least 1 byte long.".into()
     }
     fn exhaustive_note(&self, _tier: Tier) -> Option<String> {
         Some("payloads of length <= 4 over 12 symbols (as command and as handshake), raw streams of length <= 5 over 6 symbols (after and instead of the handshake), execute parameter-block bodies of length <= 4 over 8 symbols for 0/1/2/9 declared parameters, built-in query prefixes with every tail of length <= 4 over 7 symbols".into())
